@@ -92,6 +92,8 @@ macro_rules! gen_for {
                 let idx: U = match rng.below(4) { 0 => price_l, _ => pscale() * rng.range(1, 100_000) as U };
                 let frac = |rng: &mut Rng, v: U| -> U { match rng.below(8) { 0 => 0, 1 => v, 2 => v + v / 2, _ => v / 1000 * rng.below(1001) as U + rng.below(1000) as U } };
                 let (mut oi_l, mut oi_s) = (frac(rng, pool_value), frac(rng, pool_value));
+                if rng.chance(1, 8) { oi_s = oi_l; }            // equal sides: the smaller-side skip must not fire
+                if rng.chance(1, 8) { oi_s = oi_l.saturating_add(1); }
                 if wild && rng.chance(1, 3) { oi_l = rng.uint(W) as U / 2; }
                 if wild && rng.chance(1, 3) { oi_s = rng.uint(W) as U / 2; }
                 let oit_long: U = match rng.below(6) { 0 => 0, 1 if wild => rng.uint(W) as U, _ => oi_l / idx + rng.below(3) as U };
